@@ -123,6 +123,8 @@ void c18_check_parts(const char *pfx, const double *v, size_t n, const double *r
 			} else {
 				VF_CHECK(usr >= 2 && inr(v[o + 1], range), key(pfx, "drawn-start-out-of-range"), "%s: first drawn point out of range and no in-range successor; range [%.17g,%.17g]; %s", pd, range[0], range[1], around(v, n, o, usr, raw));
 				seg[o] |= 1;
+				/* a fraction of 0 is what marks "starts on a drawn point" for join / polyline::part::points() */
+				if (!p[k].cut && !vf_known(key(pfx, "zero-fraction-at-out-of-range-end"))) vf_fail(key(pfx, "zero-fraction-at-out-of-range-end"), "%s: first drawn point %.17g is outside [%.17g,%.17g] but cut == 0 (next point %.17g)", pd, first, range[0], range[1], v[o + 1]);
 				if (crossing(first, v[o + 1], range, &t)) {
 					long double dec = p[k].cut / 65536.0L;
 					vf_count("monitor:cut-fraction", 1);
@@ -136,6 +138,7 @@ void c18_check_parts(const char *pfx, const double *v, size_t n, const double *r
 				/* usr == 1 with the point out of range was refused above */
 				VF_CHECK(inr(v[o + usr - 2], range), key(pfx, "drawn-end-out-of-range"), "%s: last drawn point out of range and predecessor too; range [%.17g,%.17g]; %s", pd, range[0], range[1], around(v, n, o, usr, raw));
 				seg[o + usr - 2] |= 2;
+				if (!p[k].trim && !vf_known(key(pfx, "zero-fraction-at-out-of-range-end"))) vf_fail(key(pfx, "zero-fraction-at-out-of-range-end"), "%s: last drawn point %.17g is outside [%.17g,%.17g] but trim == 0 (previous point %.17g)", pd, last, range[0], range[1], v[o + usr - 2]);
 				if (crossing(last, v[o + usr - 2], range, &t)) {
 					long double dec = p[k].trim / 65536.0L;
 					vf_count("monitor:trim-fraction", 1);
